@@ -121,6 +121,12 @@ pub trait GuaranteedTicketsInitModule:
 
             if whitelist.insert(user.clone()) {
                 let user_ticket_status = self.blacklist_user_ticket_status(&user).take();
+                require!(
+                    user_ticket_status.staking_guaranteed_tickets
+                        + user_ticket_status.migration_guaranteed_tickets
+                        <= nr_winning_tickets,
+                    "Number of winning tickets exceeded"
+                );
                 nr_winning_tickets -= user_ticket_status.staking_guaranteed_tickets;
                 nr_winning_tickets -= user_ticket_status.migration_guaranteed_tickets;
                 total_guaranteed_tickets += user_ticket_status.staking_guaranteed_tickets;
